@@ -11,7 +11,7 @@ import (
 
 func init() {
 	register(
-		&Rule{ID: "R13.1", Props: []string{"C13"}, Floor: 4, Title: "the root is pinned (Finalize) only when every entry was added, the iterator did not fail and the context is alive; FromFiles is the only finaliser", Run: r131},
+		&Rule{ID: "R13.1", Props: []string{"C13", "C12"}, Floor: 4, Title: "the root is pinned (Finalize) only when every entry was added, the iterator did not fail and the context is alive; FromFiles is the only finaliser", Run: r131},
 		&Rule{ID: "R13.2", Props: []string{"C13"}, Floor: 3, Title: "only the finalisers and the shard flush pin through the adder", Run: r132},
 		&Rule{ID: "R13.3", Props: []string{"C13"}, Floor: 4, Title: "content is pinned where its blocks were sent: the pin's allocations are the block destinations", Run: r133},
 		&Rule{ID: "R13.4", Props: []string{"C13"}, Floor: 6, Title: "sharded pins have the shape the pin validator requires; the shard's pin depth covers its (possibly indirect) DAG", Run: r134},
@@ -46,7 +46,9 @@ func r131(c *Ctx, r *R) {
 			return false
 		}
 		call, _ := originCall(x)
-		return call != nil && call.Common().IsInvoke() && call.Common().Method.Name() == "Err" && (tn != g.Branch)
+		// the iterator's Err, not the context's (FromFiles also tests
+		// a.ctx.Err() on entry)
+		return call != nil && call.Common().IsInvoke() && call.Common().Method.Name() == "Err" && !strings.Contains(call.Common().Value.Type().String(), "context.Context") && (tn != g.Branch)
 	})
 	r.Check(okIt, "no-finalize-after-iterator-error", fin[0].Pos(), "an iterator error ends the add without pinning", "Finalize is reached although the directory iterator reported an error (truncated input would be pinned as complete)")
 	// formatter construction error
